@@ -23,7 +23,7 @@ TASK: make ONE realistic change to the library source (files under {wt}/xgi/) th
 
 DELIVERABLES (write them under {wt}/_seed/):
  - `patch.diff`: output of `git -C {wt} diff -- xgi` (only library source; nothing else changed);
- - `demo.py`: a small stand-alone program, run as `cd {wt} && /venv/bin/python _seed/demo.py`, that exits with status 1 (printing what went wrong) when the change is applied and exits 0 on the unchanged library. It MUST begin with `import sys, os; sys.path.insert(0, os.path.dirname(os.path.dirname(os.path.abspath(__file__))))` so that `import xgi` picks up the library of the directory that contains `_seed/` (the installed xgi is a different checkout!). It must exercise the public API only and state in a comment what it needs in order to manifest;
+ - `demo.py`: a small stand-alone program, run as `cd {wt} && /venv/bin/python _seed/demo.py`, that exits with status 1 (printing what went wrong) when the change is applied and exits 0 on the unchanged library. It MUST begin with `import sys, os; sys.path.insert(0, os.path.dirname(os.path.dirname(os.path.abspath(__file__))))` so that `import xgi` picks up the library of the directory that contains `_seed/` (the installed xgi is a different checkout!). It must put its code under `if __name__ == "__main__":` (the test collector imports every .py file it finds). It must exercise the public API only and state in a comment what it needs in order to manifest;
  - `meta.json`: {{"property": "{pid}", "summary": "...", "files": [...], "needs": "what is required for the breakage to manifest", "ran": ["commands you ran and their outcome"]}}.
 Verify all of it yourself: run the test-suite check with the change (missing=0), run demo.py with the change (must exit 1), then `git apply -R _seed/patch.diff`, run demo.py again (must exit 0), `git apply _seed/patch.diff`. NEVER use `git stash` (it is shared with sibling worktrees used by other people). Leave the change applied in the worktree when you finish and make sure `git diff -- xgi` equals _seed/patch.diff.
 In your final answer, report briefly: the change, why tests do not catch it, and the verification results.""")
